@@ -1,11 +1,14 @@
 import GmQuic.Model.CloseBounded
 import GmQuic.Model.FrameWF
 import GmQuic.Lemmas.CodecSize
+import GmQuic.Lemmas.CloseBounded
 /-!
 C05, CONNECTION_CLOSE into a bounded buffer: when the frame was admitted by size the truncation of the
 reason never triggers and the bytes are exactly those of the unbounded writer (so the round-trip and
-size theorems apply); the truncation path itself cannot work — a reason that does not fit makes the
-writer panic, because the room for the length varint is not taken into account.
+size theorems apply); otherwise the reason is truncated: the writer does not panic as long as type, codes and
+one more byte (the shortest Reason Phrase Length) fit, and what it writes fits the buffer and is a
+CONNECTION_CLOSE with a prefix of the reason (fix-C05-close-truncation; before the fix the room for the length
+varint was not taken into account and every truncating call panicked in `BufMut`).
 -/
 namespace GmQuic.Codec
 open GmQuic.Wire GmQuic.Gen
@@ -28,45 +31,81 @@ theorem close_bounded_eq_unbounded (f : Frame) (rem : Nat) (hc : isClose f = tru
   have hlen : (closeHead f).length + ((encVarint ((closeReason f).length % 2 ^ 32)).length + (closeReason f).length)
       = sizeOf f := by
     rw [← Nat.add_zero (sizeOf f), ← hd, ← hsz, hb]; simp
-  simp only [encCloseBounded]
-  rw [if_neg (by omega)]
-  have hmin : min (closeReason f).length (rem - (closeHead f).length) = (closeReason f).length := by
+  rw [encVarint_length] at hlen
+  have hmin : min (closeReason f).length (rem - ((closeHead f).length + varintSize ((closeReason f).length % 2 ^ 32)))
+      = (closeReason f).length := by
     apply Nat.min_eq_left; omega
-  simp only [hmin, List.take_length]
+  simp only [encCloseBounded, Nat.sub_sub]
+  rw [if_neg (by omega)]
+  simp only [hmin, List.take_length, encVarint_length]
   rw [if_neg (by omega), hb]
 
 example : isClose (.closeApp 7 [0x68, 0x69]) = true ∧ wf (.closeApp 7 [0x68, 0x69]) = true ∧
     sizeOf (.closeApp 7 [0x68, 0x69]) ≤ 5 := by decide
 
-/-- **The truncation path panics** instead of truncating: a 10-byte reason with exactly 10 bytes of room
-after the codes (`len = 10`, then a 1-byte length varint and 10 bytes are written into 10 bytes). -/
-theorem close_truncation_panics :
-    ∃ f rem, isClose f = true ∧ wf f = true ∧ (∃ s, encCloseBounded rem f = .panic s) := by
-  refine ⟨.closeApp 7 (List.replicate 10 0x61), 12, by decide, by decide,
-    "BufMut::put_slice: advance out of bounds (length + reason)", ?_⟩
-  decide
+/-- **The truncating writer is total**: whenever type, codes and ONE more byte fit (a CONNECTION_CLOSE cannot be
+shorter: the Reason Phrase Length field is at least one byte), `put_frame` does not panic, what it writes fits the
+buffer, and it is head ++ varint(len) ++ the first `len` bytes of the reason for some `len ≤ reason.len()`.
+(`reason.len() < 2^32`: the `as u32` cast; implied by `wf`.) -/
+theorem close_truncating_writer_total (f : Frame) (rem : Nat) (hr : (closeReason f).length < 2 ^ 32)
+    (hh : (closeHead f).length < rem) :
+    ∃ len, len ≤ (closeReason f).length ∧
+      encCloseBounded rem f = .ok () (closeHead f ++ (encVarint len ++ (closeReason f).take len)) ∧
+      (closeHead f ++ (encVarint len ++ (closeReason f).take len)).length ≤ rem := by
+  have hmod : (closeReason f).length % 2 ^ 32 = (closeReason f).length := Nat.mod_eq_of_lt hr
+  refine ⟨min (closeReason f).length (rem - (closeHead f).length - varintSize ((closeReason f).length % 2 ^ 32)),
+    Nat.min_le_left _ _, ?_, ?_⟩
+  all_goals
+    generalize hL : min (closeReason f).length
+      (rem - (closeHead f).length - varintSize ((closeReason f).length % 2 ^ 32)) = len
+    have hle : len ≤ (closeReason f).length := by rw [← hL]; exact Nat.min_le_left _ _
+    have hle2 : len ≤ rem - (closeHead f).length - varintSize ((closeReason f).length % 2 ^ 32) := by
+      rw [← hL]; exact Nat.min_le_right _ _
+    have hlm : len % 2 ^ 32 = len := Nat.mod_eq_of_lt (by omega)
+    have hvs : varintSize len ≤ varintSize ((closeReason f).length % 2 ^ 32) := by
+      rw [hmod]; exact varintSize_mono hle
+    have h1 := (varintSize_le len).1
+    have hfit : varintSize len + len ≤ rem - (closeHead f).length := by
+      by_cases hc : varintSize ((closeReason f).length % 2 ^ 32) ≤ rem - (closeHead f).length
+      · omega
+      · have : len = 0 := by omega
+        subst this
+        have : varintSize 0 = 1 := by decide
+        omega
+  · simp only [encCloseBounded]
+    rw [if_neg (by omega)]
+    simp only [hL, hlm, encVarint_length]
+    rw [if_neg (by omega)]
+  · simp only [List.length_append, encVarint_length, List.length_take]
+    have : min len (closeReason f).length = len := Nat.min_eq_left hle
+    omega
 
-/-- the statement one would want of the truncation code is false: "whenever type and codes fit, the
-writer does not panic" -/
-theorem close_truncating_writer_total_fails :
-    ¬ (∀ f rem, isClose f = true → wf f = true → (closeHead f).length ≤ rem → ∃ b, encCloseBounded rem f = .ok () b) := by
-  intro h
-  obtain ⟨b, hb⟩ := h (.closeApp 7 (List.replicate 10 0x61)) 12 (by decide) (by decide) (by decide)
-  have : encCloseBounded 12 (.closeApp 7 (List.replicate 10 0x61)) = .panic "BufMut::put_slice: advance out of bounds (length + reason)" := by
-    decide
-  rw [this] at hb
-  cases hb
+/-- non-vacuity + the former panic witness (10-byte reason, 12 bytes of room: type, code, then 10 bytes for length +
+reason): now 9 bytes of the reason are written; with 3 bytes of room an empty reason. -/
+example : encCloseBounded 12 (.closeApp 7 (List.replicate 10 0x61))
+    = .ok () (closeHead (.closeApp 7 (List.replicate 10 0x61)) ++ (encVarint 9 ++ List.replicate 9 0x61)) := by decide
+example : encCloseBounded 3 (.closeApp 7 (List.replicate 10 0x61))
+    = .ok () (closeHead (.closeApp 7 (List.replicate 10 0x61)) ++ encVarint 0) := by decide
 
-/-- what the code does guarantee: with one spare byte per length-varint byte beyond the reason… i.e. the
-partial statement — no panic whenever the room after the codes is at least `varint(len) + len` for the
-truncated length -/
-theorem close_bounded_partial (f : Frame) (rem : Nat) (hh : (closeHead f).length ≤ rem)
-    (hroom : (encVarint (min (closeReason f).length (rem - (closeHead f).length) % 2 ^ 32)).length
-      + min (closeReason f).length (rem - (closeHead f).length) ≤ rem - (closeHead f).length) :
-    ∃ b, encCloseBounded rem f = .ok () b := by
-  simp only [encCloseBounded]
-  rw [if_neg (by omega), if_neg (by omega)]
-  exact ⟨_, rfl⟩
+/-- the bound is sharp: with room for type and codes only, the length field cannot be written (and `put_frame`
+returns `()`, it cannot refuse) -/
+theorem close_bounded_needs_length_byte :
+    encCloseBounded 2 (.closeApp 7 (List.replicate 10 0x61))
+      = .panic "BufMut::put_slice: advance out of bounds (length + reason)" := by decide
+
+/-- what the writer did BEFORE fix-C05-close-truncation (`len = reason.len().min(remaining_mut())`), kept to show what
+the fix excludes: the former witness of `close_truncation_panics` / `close_truncating_writer_total_fails`. -/
+def encCloseBoundedOld (rem : Nat) (f : Frame) : Res Unit :=
+  let head := closeHead f
+  if rem < head.length then .panic "BufMut::put_*: advance out of bounds (type / codes)" else
+  let r1 := rem - head.length
+  let len := min (closeReason f).length r1
+  let lenb := encVarint (len % 2 ^ 32)
+  if r1 < lenb.length + len then .panic "BufMut::put_slice: advance out of bounds (length + reason)"
+  else .ok () (head ++ (lenb ++ (closeReason f).take len))
+
+example : encCloseBoundedOld 12 (.closeApp 7 (List.replicate 10 0x61))
+    = .panic "BufMut::put_slice: advance out of bounds (length + reason)" := by decide
 
 example : encCloseBounded 13 (.closeApp 7 (List.replicate 10 0x61)) = .ok () (encBytes (.closeApp 7 (List.replicate 10 0x61))) := by
   decide
